@@ -36,6 +36,7 @@ PLAN = {
             {"name": "c12_mask_matches", "obligation": "C12/kani/c12_mask_matches", "clause": "matches(kind) <=> kind's bit set, all 3 x 256", "kind": "complete", "tier": "quick", "timeout": 600, "replay": True, "covers": 2},
             {"name": "c12_mask_bitor", "obligation": "C12/kani/c12_mask_bitor", "clause": "(a|b).matches(k) <=> a.matches(k) || b.matches(k)", "kind": "complete", "tier": "quick", "timeout": 600, "replay": True},
             {"name": "c12_with_increment", "obligation": "C12/kani/c12_with_increment", "clause": "generation' == generation + 1 AFTER f ran; result forwarded", "kind": "complete", "tier": "quick", "timeout": 600, "replay": True, "module": "__verif_c12_gen"},
+            {"name": "c12_generational_hist", "obligation": "C12/kani/c12_generational_hist", "clause": "every HistogramFn entry point through Generational (record; record_many, default or overridden) delivers its samples to the wrapped storage and moves the generation", "kind": "bounded", "bound": "record_many count <= 3 (record: complete)", "tier": "quick", "timeout": 600, "replay": True, "module": "__verif_c12_gen"},
             {"name": "c12_generational_ops", "obligation": "C12/kani/c12_generational_ops", "clause": "each counter/gauge op through Generational bumps the generation exactly once", "kind": "complete", "tier": "quick", "timeout": 600, "replay": True, "module": "__verif_c12_gen"},
         ],
     }],
